@@ -66,12 +66,17 @@ static int g_set_blocking_calls; static bool g_set_blocking_arg;
 int xcm_set_blocking(struct xcm_socket *s, bool b) { (void)s; g_set_blocking_calls++; g_set_blocking_arg = b; if (nd_bool()) { errno = EPIPE; return -1; } s->is_blocking = b; return 0; }
 const char *xcm_local_addr(struct xcm_socket *s) { return xcm_tp_socket_get_local_addr(s, false); }
 const char *xcm_remote_addr(struct xcm_socket *s) { if (s->type != xcm_socket_type_conn) { errno = EINVAL; return NULL; } return xcm_tp_socket_get_remote_addr(s, false); }
-void ut_mutex_lock(pthread_mutex_t *m) { (void)m; }
-void ut_mutex_unlock(pthread_mutex_t *m) { (void)m; }
+/* poisoning mutex stubs for the socket-id counter (C15, see locks/afd_h.c) */
+static int g_held, g_lock_calls, g_unlock_calls; static int64_t g_true_next_id;
+#define ID_POISON ((int64_t)0x5a5a5a5a5a5a5a5aLL)
+static int64_t *next_id_ptr(void);
+void ut_mutex_lock(pthread_mutex_t *m) { (void)m; CHECK(g_held == 0, "C15: no double lock"); CHECK(*next_id_ptr() == ID_POISON, "C15: the id counter is not written outside its critical section"); *next_id_ptr() = g_true_next_id; g_held = 1; g_lock_calls++; }
+void ut_mutex_unlock(pthread_mutex_t *m) { (void)m; CHECK(g_held == 1, "C15: unlock only what is held"); g_true_next_id = *next_id_ptr(); *next_id_ptr() = ID_POISON; g_held = 0; g_unlock_calls++; }
 int xcm_addr_parse_proto(const char *a, char *p, size_t c) { (void)a; (void)p; (void)c; return -1; }
 
 #include "xcm_tp.c"
 
+static int64_t *next_id_ptr(void) { return &next_id; }
 static struct xcm_socket sock, server_sock;
 static void setup(void)
 {
@@ -197,6 +202,22 @@ int main(void)
     if (rc2 < 0) CHECK(sock.is_blocking == before, "C11: a failed mode switch changes nothing");
     WITNESS(rc == 0 && l == 10, "service = bytestream accepted");
     WITNESS(rc == 0 && l == 3, "service = any accepted");
+    return 0;
+}
+#endif
+
+#ifdef OP_SOCKID
+/* socket ids: unique per process, handed out under the id mutex only */
+int main(void)
+{
+    g_true_next_id = (int64_t)nd_range(0, 1LL << 40); next_id = ID_POISON;
+    int64_t first = g_true_next_id;
+    int64_t a = get_next_sock_id();
+    int64_t b = get_next_sock_id();
+    CHECK(a == first && b == first + 1 && a != b, "C15: consecutive sockets get distinct ids");
+    CHECK(g_held == 0 && g_lock_calls == 2 && g_unlock_calls == 2, "C15: one balanced critical section per id");
+    CHECK(next_id == ID_POISON && g_true_next_id == first + 2, "C15: the counter is only touched inside the critical section");
+    WITNESS(1, "two ids handed out");
     return 0;
 }
 #endif
